@@ -200,6 +200,9 @@ pub struct Sys {
     pub alias_established: std::cell::Cell<bool>,
     /// params["prelude"] has been played (see `run_prelude`)
     pub prelude_done: bool,
+    /// the CONNECT options `bring_up` connects with (default: none set). A scenario whose broker sends
+    /// topic aliases must announce a Topic Alias Maximum here: a client may hold the server to it.
+    pub base_connect: ConnectSpec,
 }
 
 impl Sys {
@@ -226,6 +229,7 @@ impl Sys {
             torn_write: false,
             alias_established: std::cell::Cell::new(false),
             prelude_done: false,
+            base_connect: ConnectSpec::default(),
         }
     }
 
@@ -782,7 +786,7 @@ impl Sys {
             }
         }
         self.connect_with(
-            ConnectSpec::default(),
+            self.base_connect.clone(),
             SPacket::Connack {
                 session_present: false,
                 reason: 0,
@@ -1190,7 +1194,11 @@ pub fn enrich_op(spec: OpSpec, n: usize) -> OpSpec {
                     p.payload = Some(pl);
                     p.topic = Some(format!("$share/\u{fc}/{}", p.topic.unwrap_or_default()));
                 }
-                _ => {}
+                _ => {
+                    // the alias-only form: a zero-length Topic Name next to a Topic Alias
+                    p.topic = Some(String::new());
+                    p.topic_alias = Some(1);
+                }
             }
             OpSpec::Publish(p)
         }
